@@ -179,6 +179,10 @@ class Report:
         viol = [o for o in self.obligations if o["status"] == "violated"]
         new, listed = [], []
         for o in viol:
+            # a sub-case of a listed obligation (the case was partitioned on a comparison, key suffix ",{...}") is the listed failing case
+            base_key = re.sub(r",?\{[^{}]*\}", "", o["key"])
+            if o["key"] not in known_keys and base_key in known_keys:
+                o["key"] = base_key
             (listed if o["key"] in known_keys else new).append(o)
         lines = []
         reported = set()
